@@ -120,6 +120,10 @@ func (c *Config) UnmarshalBinary(data []byte) (err error) {
 
 		// handle our own key separately
 		if p.ID == cm.ID {
+			// our own Pedersen parameters come from the encoding as well
+			if err := pedersen.ValidateParameters(paillierSecret.PublicKey.N(), p.S, p.T); err != nil {
+				return fmt.Errorf("config: party %s: %w", p.ID, err)
+			}
 			ps[p.ID] = &Public{
 				ECDSA:    cm.ECDSA.ActOnBase(),
 				ElGamal:  cm.ElGamal.ActOnBase(),
